@@ -31,13 +31,13 @@ Fixpoint spec_op (o : op) (s : gl) : gl * trace :=
   | ORead tag x => ((g, l), [(tag, spec_read g l x)])         (* local shadows global *)
   | OReadGlobal tag x => ((g, l), [(tag, t_get g x)])
   | OCall body =>                                            (* fresh locals; caller's locals untouched *)
-      let '((g', _), tr) := seq_ops spec_op body (g, []) in ((g', l), tr)
-  | OBlock body => seq_ops spec_op body (g, l)               (* shares the enclosing function's variables *)
+      let '((g', _), tr) := @seq_ops gl spec_op body (g, t_empty) in ((g', l), tr)
+  | OBlock body => @seq_ops gl spec_op body (g, l)               (* shares the enclosing function's variables *)
   | OForeach x vals body =>
-      seq_vals (fun v s0 => seq_ops spec_op body (fst s0, t_set (snd s0) x v)) vals (g, l)
+      @seq_vals gl (fun v s0 => @seq_ops gl spec_op body (fst s0, t_set (snd s0) x v)) vals (g, l)
   end.
 
-Definition spec_trace (ops : list op) : trace := snd (seq_ops spec_op ops ([], [])).
+Definition spec_trace (ops : list op) : trace := snd (@seq_ops gl spec_op ops (t_empty, t_empty)).
 
 (* ---- case ---- *)
 Record case := { c_ops : list op; c_status : N (* 0 = ran to completion *); c_obs : trace }.
